@@ -208,13 +208,11 @@ _TOY = {}
 
 
 def toy(params):
-    """MessageSigner over pycoin's generic Generator(p, a, b, (gx, gy), n) with an injectable nonce"""
+    """a network over pycoin's generic Generator(p, a, b, (gx, gy), n) with an injectable nonce"""
     params = tuple(params)
     if params in _TOY:
         return _TOY[params]
     from pycoin.ecdsa.Generator import Generator
-    from pycoin.contrib.msg_signing import MessageSigner
-    from pycoin.key.Key import Key
 
     class NonceGenerator(Generator):
         # harness-side subclass (DESIGN section 7): fixed blinding entropy, injectable nonce
@@ -233,15 +231,23 @@ def toy(params):
 
     p, a, b, gx, gy, n = params
     gen = NonceGenerator(p, a, b, (gx, gy), n)
-    net = network("BTC")
+    # The network is built the way a user builds one for another curve: through create_bitcoinish_network(...,
+    # generator=<curve>) with Bitcoin's name and prefixes, and everything is reached through the network object
+    # (network.msg.*, network.keys.*), so the wiring of the generator into MessageSigner / Key is part of what runs.
+    from pycoin.networks.bitcoinish import create_bitcoinish_network
+    net = create_bitcoinish_network(
+        symbol="BTC", network_name="Bitcoin", subnet_name="mainnet", generator=gen,
+        wif_prefix_hex="80", sec_prefix="BTCSEC:", address_prefix_hex="00", pay_to_script_prefix_hex="05",
+        bip32_prv_prefix_hex="0488ade4", bip32_pub_prefix_hex="0488B21E", bech32_hrp="bc",
+        bip49_prv_prefix_hex="049d7878", bip49_pub_prefix_hex="049D7CB2",
+        bip84_prv_prefix_hex="04b2430c", bip84_pub_prefix_hex="04B24746", magic_header_hex="F9BEB4D9")
 
     class T:
         pass
     t = T()
     t.gen = gen
     t.net = net
-    t.ms = MessageSigner(net, gen)
-    t.Key = Key.make_subclass("BTC", network=net, generator=gen)
+    t.msg = net.msg
     t.params = params
     _TOY[params] = t
     return t
@@ -270,27 +276,52 @@ def proj_bool(res):
 def toy_sign(t, d, e, k, comp):
     t.gen.next_k = k
     try:
-        return call(t.ms.signature_for_message_hash, d, e, comp)
+        return call(t.msg.signature_for_message_hash, d, e, comp)
     finally:
         t.gen.next_k = None
 
 
+def toy_message(t, e):
+    """(b) a text message whose digest on the toy network lies in the class of e modulo the group order"""
+    n = t.params[5]
+    if not hasattr(t, "by_class"):
+        t.by_class = {}
+        i = 0
+        while len(t.by_class) < n:
+            m = "message %d" % i
+            t.by_class.setdefault(t.msg.hash_for_signing(m) % n, m)
+            i += 1
+    return t.by_class[e % n]
+
+
+def toy_sign_message(t, d, k, comp, message, verbose=False):
+    t.gen.next_k = k
+    try:
+        return call(t.msg.sign, t.net.keys.private(d, is_compressed=comp), message, verbose=verbose)
+    finally:
+        t.gen.next_k = None
+
+
+def toy_verify_message(t, who, text, message):
+    return proj_bool(call(t.msg.verify, who, text, message))
+
+
 def toy_who(t, kind, d=None, pair=None, comp=True):
-    """a key object or an address string for the toy curve"""
+    """a key object or an address string of the toy network"""
     if pair is not None:
-        key = t.Key(public_pair=tuple(pair), is_compressed=comp)
+        key = t.net.keys.public(tuple(pair), is_compressed=comp)
     else:
-        key = t.Key(secret_exponent=d, is_compressed=comp)
+        key = t.net.keys.private(d, is_compressed=comp)
     return key if kind == "key" else key.address()
 
 
 def toy_verify(t, who, text, e):
-    return proj_bool(call(t.ms.verify_message, who, text, msg_hash=e))
+    return proj_bool(call(t.msg.verify, who, text, msg_hash=e))
 
 
 def toy_recover(t, text, e):
     """('ok', ((x, y), comp)) or ('exc', name)"""
-    r = call(t.ms.pair_for_message_hash, text, e)
+    r = call(t.msg.pair_for_message_hash, text, e)
     if r[0] == "ok":
         pair, comp = r[1]
         return ("ok", (tuple(pair), bool(comp)))
